@@ -371,6 +371,18 @@ func mkFac(curve string, sk *paillier.PrivateKey, ver *keygen.LocalPreParams, ot
 			c[8].Add(c[8], d)
 			return c
 		},
+		"B*t^d,w2+d": func(d *big.Int) []*big.Int {
+			c := cloneInts(comps)
+			c[3].Mul(c[3], new(big.Int).Exp(t, d, NCap)).Mod(c[3], NCap)
+			c[9].Add(c[9], d)
+			return c
+		},
+		"T*t^d,v+d": func(d *big.Int) []*big.Int {
+			c := cloneInts(comps)
+			c[4].Mul(c[4], new(big.Int).Exp(t, d, NCap)).Mod(c[4], NCap)
+			c[10].Add(c[10], d)
+			return c
+		},
 	}
 	in.altStmts = map[string][]*big.Int{
 		"other N0":        {other.PaillierSK.N, NCap, s, t},
@@ -424,6 +436,13 @@ func mkAlice(curve string, sk *paillier.PrivateKey, ver *keygen.LocalPreParams, 
 			cc := cloneInts(comps)
 			cc[2].Mul(cc[2], new(big.Int).Exp(ver.H2i, d, ver.NTildei)).Mod(cc[2], ver.NTildei)
 			cc[5].Add(cc[5], d)
+			return cc
+		},
+		"u*x^N,s*x": func(d *big.Int) []*big.Int {
+			cc := cloneInts(comps)
+			x := new(big.Int).Add(new(big.Int).Mod(d, big.NewInt(1000003)), big2)
+			cc[1].Mul(cc[1], new(big.Int).Exp(x, pk.N, N2)).Mod(cc[1], N2)
+			cc[3].Mul(cc[3], x).Mod(cc[3], pk.N)
 			return cc
 		},
 	}
@@ -554,6 +573,19 @@ func mkBob(curve string, wc bool, skA *paillier.PrivateKey, ver *keygen.LocalPre
 			c := cloneInts(comps)
 			c[1].Mul(c[1], new(big.Int).Exp(h2, d, NT)).Mod(c[1], NT)
 			c[7].Add(c[7], d)
+			return c
+		},
+		"w*h2^d,t2+d": func(d *big.Int) []*big.Int {
+			c := cloneInts(comps)
+			c[4].Mul(c[4], new(big.Int).Exp(h2, d, NT)).Mod(c[4], NT)
+			c[9].Add(c[9], d)
+			return c
+		},
+		"v*x^N,s*x": func(d *big.Int) []*big.Int {
+			c := cloneInts(comps)
+			x := new(big.Int).Add(new(big.Int).Mod(d, big.NewInt(1000003)), big2)
+			c[3].Mul(c[3], new(big.Int).Exp(x, pk.N, N2)).Mod(c[3], N2)
+			c[5].Mul(c[5], x).Mod(c[5], pk.N)
 			return c
 		},
 	}
